@@ -181,15 +181,19 @@ CHECKS = {
         technique="symbolic execution of the real fix_trimesh_orientation / get_inwards_mask / is_facet_inwards / mask_inside_trimesh / "
         "lines_end_in_trimesh on meshes V = s*V0 + t with symbolic size s in [1e-9,1e9] and placement t; the returned face list is concrete per "
         "path and checked exactly; the solver decides which paths (sizes/placements) are feasible; get_intersecting_triangles / "
-        "segments_intersect_facets on two-part meshes with a symbolic interpenetration depth d (scipy KDTree cut: every pair is a candidate)",
+        "segments_intersect_facets on two-part meshes with a symbolic interpenetration depth d (scipy KDTree replaced by a stub that implements "
+        "query_ball_point by its definition); get_open_edges / get_disconnected_faces_subsets on faces whose vertex numbers are symbolic pairwise "
+        "distinct terms (every sort / unique / set-membership comparison is a solver-decided branch)",
         text="Bounded symbolic model checking: for rational base meshes (tetrahedron, sliver, prism, cube, two disjoint tetrahedra) under committed "
         "face orders and flip subsets, every feasible path of the reorientation returns only outward faces for ALL sizes and placements - exactly "
         "the fixed tolerances named in the property (they were absolute and inverted all faces of small meshes: found, reproduced, fixed). "
         "Self-intersection: for a spike pushed through a face and for a shifted copy standing on the same plane, every feasible path reports an "
         "intersection iff the geometric truth in d holds, for B-first / A-first / interleaved face orders (found, reproduced, fixed: crossings "
-        "exactly through a triangle edge were missed).",
-        note="Real arithmetic (float32 cast = identity); check_open / check_disconnected (index combinatorics) are not decided; the adequacy of the "
-        "KDTree search radius is outside the claim; face orders / flip subsets / two-part families from a stated finite list; touching "
+        "exactly through a triangle edge were missed). Open / disconnected: for 10 committed topologies (closed, faces deleted, dangling fin, two "
+        "parts, two parts sharing a vertex, strips listed so that region growing needs several sweeps) every feasible order of the symbolic vertex "
+        "numbers returns exactly the boundary edges and the vertex-connected parts of a reference written in the harness.",
+        note="Real arithmetic (float32 cast = identity); open / disconnected only for the committed topologies and face orders, at most 4 (quick) / 5 "
+        "vertex numbers free in the order; the class-level status flags (check_open / check_disconnected caching) by a concrete trace; face orders / flip subsets / two-part families from a stated finite list; touching "
         "configurations excluded by 1e-5 bands; paths whose feasibility the solver cannot decide are explored anyway and listed as inconclusive "
         "if they return inward faces.",
         design="3/C16",
